@@ -75,7 +75,7 @@ func (x *Exec) keyValue(kt types.Type, k Term) Value {
 }
 
 func mapNames(mt *types.Map) (dom, val string) {
-	return "Mdom." + typeName(mt.Key()), "Mval." + typeName(mt.Key()) + "=>" + typeName(mt.Elem())
+	return "Mdom." + typeName(mt.Key()) + "=>" + typeName(mt.Elem()), "Mval." + typeName(mt.Key()) + "=>" + typeName(mt.Elem())
 }
 
 func (x *Exec) mapDom(st *State, mv MapV) Term {
@@ -111,6 +111,23 @@ func (x *Exec) mapValAt(st *State, mv MapV, k Term) Value {
 	}
 	v, _ := unflatten(mt.Elem(), ts)
 	return v
+}
+
+// havocMap forgets the contents of one map object.
+func (x *Exec) havocMap(st *State, mv MapV) {
+	mt := mv.Typ.Underlying().(*types.Map)
+	dn, vn := mapNames(mt)
+	ks := x.keySort(mt.Key())
+	ds := arrSort(SRef, arrSort(ks, SBool))
+	x.setArr(st, dn, ds, Store(x.arr(st, dn, ds), mv.Ref, x.smt.fresh("mh.dom", arrSort(ks, SBool))))
+	cs := arrSort(SRef, SInt)
+	nc := x.smt.fresh("mh.card", SInt)
+	x.smt.assume("(>= " + nc + " 0)")
+	x.setArr(st, "Mcard", cs, Store(x.arr(st, "Mcard", cs), mv.Ref, nc))
+	for _, l := range leafShape(mt.Elem()) {
+		s := arrSort(SRef, arrSort(ks, l.sort))
+		x.setArr(st, vn+l.suffix, s, Store(x.arr(st, vn+l.suffix, s), mv.Ref, x.smt.fresh("mh.val", arrSort(ks, l.sort))))
+	}
 }
 
 func (x *Exec) mapStore(st *State, mv MapV, key, val Value) {
@@ -184,6 +201,10 @@ func (x *Exec) rangeInit(fr *Frame, st *State, ins *ssa.Range) Value {
 		}
 		fr.iters[ins] = name
 		st.ghost[name] = ArrayV{T: "((as const " + arrSort(ks, SBool) + ") false)", Sort: arrSort(ks, SBool), Key: mt.Key()}
+		// number of keys produced so far, and the map's key set when the range started
+		st.ghost[name+"#n"] = intV("0")
+		dn, _ := mapNames(mt)
+		fr.iterDom[ins] = x.arr(st, dn, arrSort(SRef, arrSort(ks, SBool)))
 	}
 	_ = m
 	return OpaqueV{T: "0", Typ: ins.Type()}
@@ -215,6 +236,16 @@ func (x *Exec) next(fr *Frame, st *State, ins *ssa.Next) Value {
 	x.assumeAt(st, Implies(ok, And(Not(Eq(mv.Ref, NilRef)), Select(dom, k), Not(Select(vis.T, k)))))
 	x.assumeAt(st, Implies(Not(ok), Or(Eq(mv.Ref, NilRef), fmt.Sprintf("(forall ((q %s)) (=> (select %s q) (select %s q)))", ks, dom, vis.T))))
 	st.ghost[g] = ArrayV{T: m.def("vis", vis.Sort, Ite(ok, Store(vis.T, k, "true"), vis.T)), Sort: vis.Sort, Key: mt.Key()}
+	if nv, ok2 := st.ghost[g+"#n"].(Scalar); ok2 {
+		// when the map's key set was not written since the range started, the iteration
+		// produces each key exactly once: it ends after len(map) keys
+		dn, _ := mapNames(mt)
+		if x.arr(st, dn, arrSort(SRef, arrSort(ks, SBool))) == fr.iterDom[r] {
+			ln := Ite(Eq(mv.Ref, NilRef), "0", x.mapCard(st, mv))
+			x.assumeAt(st, And("(<= 0 "+nv.T+")", Implies(Not(ok), Eq(nv.T, ln)), Implies(ok, "(< "+nv.T+" "+ln+")")))
+		}
+		st.ghost[g+"#n"] = intV(m.def("nvis", SInt, Ite(ok, "(+ "+nv.T+" 1)", nv.T)))
+	}
 	kv := x.keyValue(mt.Key(), k)
 	if kt := tt.At(1).Type(); kt != nil {
 		kv = x.retype(kv, kt)
